@@ -1,5 +1,5 @@
 From Coq Require Import List NArith Arith Permutation Sorted.
-From SK Require Import lib.LGraph lib.Mono model.C11_Model proof.C11_Aut proof.C11_WL proof.C11_Dedup proof.C11_Main proof.C11_Comp proof.C11_VF2 proof.C11_Vocab proof.C11_Sig proof.C11_Anchor model.C11_State proof.C11_StateProof model.C11_Partial proof.C11_PartialProof proof.C11_PruneClass proof.C11_WLPart proof.C11_Idem model.C11_Keys model.C11_Attr proof.C11_AttrProof model.C11_Orbit proof.C11_OrbitProof proof.C11_Extend model.C11_Order proof.C11_OrderProof.
+From SK Require Import lib.LGraph lib.Mono model.C11_Model proof.C11_Aut proof.C11_WL proof.C11_Dedup proof.C11_Main proof.C11_Comp proof.C11_VF2 proof.C11_Vocab proof.C11_Sig proof.C11_Anchor model.C11_State proof.C11_StateProof model.C11_Partial proof.C11_PartialProof proof.C11_PruneClass proof.C11_WLPart proof.C11_Idem model.C11_Keys model.C11_Attr proof.C11_AttrProof model.C11_Orbit proof.C11_OrbitProof proof.C11_Extend model.C11_Order proof.C11_OrderProof model.C11_Views proof.C11_ViewsProof.
 Import ListNotations.
 
 (** Vocabulary (definitions in proof/C11_Aut.v, written out here for the reader):
@@ -483,3 +483,25 @@ Theorem C11_orbit_order :
     (forall u, (exists o, In o (wl_orbits cs) /\ In u o) -> exists j, wl_orbit_index cs u = Some j).
 Proof. exact orbit_order. Qed.
 Print Assumptions C11_orbit_order.
+
+(** The remaining public views (round 5; model/C11_Views.v).  Automorphism(anchor_largest_component=False) changes nothing
+    but the anchor (None); a graph for which is_connected holds has no anchor; AutoEst.components(nodes) raises exactly
+    when a given node is unknown, without [nodes] returns the components of the graph sorted by (size, smallest id), and
+    for a subset returns - in that order - exactly the components of the induced subgraph, which is well-formed again
+    (so C11_components describes each member), covering every kept node. *)
+Theorem C11_views :
+  forall (fn : nlab -> N) (fe : elab -> N) (g : graph),
+    analyze_flag true fn fe g = analyze fn fe g /\
+    (let a := analyze_flag false fn fe g in
+     a_count a = a_count (analyze fn fe g) /\ a_orbits a = a_orbits (analyze fn fe g) /\
+     a_comps a = a_comps (analyze fn fe g) /\ a_anchor a = None) /\
+    (a_is_connected g = true -> a_anchor (analyze fn fe g) = None) /\
+    (forall ns, est_components g (Some ns) = None <-> exists n, In n ns /\ ~ In n (node_ids g)) /\
+    (wf g -> est_components g None = Some (sort_comps (components g))) /\
+    (wf g -> forall nodes out, est_components g nodes = Some out ->
+       exists keep, keep_nodes g nodes = Some keep /\ wf (induced_sub g keep) /\
+         length out = length (components (induced_sub g keep)) /\
+         (forall c, In c out <-> In c (components (induced_sub g keep))) /\
+         (forall u, In u (node_ids g) -> In u keep -> exists c, In c out /\ In u c)).
+Proof. exact views_all. Qed.
+Print Assumptions C11_views.
